@@ -11,7 +11,9 @@ import (
 	"verif/seq/props/c02"
 	"verif/seq/props/c04"
 	"verif/seq/props/c05"
+	"verif/seq/props/c06"
 	"verif/seq/props/c07"
+	"verif/seq/props/c08"
 	"verif/seq/props/c09"
 	"verif/seq/props/c15"
 	"verif/seq/props/c16"
@@ -30,7 +32,9 @@ var table = map[string]entry{
 	"C02": {"exploration", c02.Run},
 	"C04": {"exploration", c04.Run},
 	"C05": {"exploration", c05.Run},
+	"C06": {"exploration", c06.Run},
 	"C07": {"model_checking", c07.Run},
+	"C08": {"exploration", c08.Run},
 	"C09": {"exploration", c09.Run},
 	"C15": {"exploration", c15.Run},
 	"C16": {"exploration", c16.Run},
